@@ -94,6 +94,9 @@ type Config struct {
 	SkipSummaryOffsets       bool
 	OverrideLibrary          bool
 	SkipMagic                bool
+	// FreshCompressor (custom compression only): the caller's CustomCompressor hands out a new
+	// compressor instance on every Compressor() call, as a factory-style implementation would.
+	FreshCompressor bool `json:",omitempty"`
 }
 
 const CustomCompression = "vxor"
